@@ -80,7 +80,7 @@ def _build(rng, members: list[dict], *, data_order: str = "shuffle", align: int 
     for i, m in enumerate(members):
         name = m["name"]
         kind = m["kind"]
-        nb = name.encode()
+        nb = name.encode("utf-8", "surrogateescape")  # (names are bytes on disk; readers map undecodable ones to surrogates)
         prefix = b""
         pre = []
         if len(nb) > 100 or m.get("longname"):
@@ -89,7 +89,7 @@ def _build(rng, members: list[dict], *, data_order: str = "shuffle", align: int 
                 # full 155 bytes for ordinary inline members
                 lim = 155 if kind == "std" else 150
                 cut = name.rfind("/", 0, min(len(name), lim + 1))
-                p, rest = name[:cut].encode(), name[cut + 1 :].encode()
+                p, rest = name[:cut].encode("utf-8", "surrogateescape"), name[cut + 1 :].encode("utf-8", "surrogateescape")
                 if 0 < len(p) <= lim and 0 < len(rest) <= 100:
                     prefix, nb = p, rest
             if not prefix:
